@@ -106,6 +106,9 @@ void exec_fault(const J& plan) {
     LoadOpts o; o.where = "fault sweep"; o.exact_window = true;
     LoadOutcome base = checked_load(by.data(), by.size(), o, nullptr);     // fault-free configuration, checked on its own
     N = base.requests;
+    // the sweep re-runs the load once per refusal point and kind: bound the total work (a deterministic function of the plan) so that
+    // one scenario stays far below the watchdog even with thousands of requests per run
+    { uint64_t fit = 1500000 / std::max<uint64_t>(1, N) / 2; if (fit < 8) fit = 8; if (kcap > fit) kcap = fit; }
     std::vector<uint64_t> ks; for (uint64_t k = 0; k < N && k < kcap; k++) ks.push_back(k);
     if (N > kcap) { ks.push_back(N - 1); for (size_t i = 0; i < plan.at("ks").size(); i++) ks.push_back(kcap + plan.at("ks").iu(i) % (N - kcap)); }
     for (int kind = F_NTH; kind <= F_FROM && !failed(); kind++)
@@ -122,6 +125,8 @@ void exec_fault(const J& plan) {
     bool ok; OpResult base = S.run(F_NONE, 0, ok);        // fault-free configuration, checked on its own
     if (failed() || g_run.foreign_seen || !ok || !base.executed) { g_run.nontrivial = false; return; }
     N = base.requests;
+    // every injected run rebuilds the scenario from scratch (prelude included): bound requests-per-run x runs, deterministically
+    { uint64_t per_run = std::max<uint64_t>(1, sa_total_requests()); uint64_t fit = 1500000 / per_run / 2; if (fit < 8) fit = 8; if (kcap > fit) { kcap = fit; stat_add("scenarios_with_reduced_sweep"); } }
     std::vector<uint64_t> ks; for (uint64_t k = 0; k < N && k < kcap; k++) ks.push_back(k);
     if (N > kcap) { ks.push_back(N - 1); for (size_t i = 0; i < plan.at("ks").size(); i++) ks.push_back(kcap + plan.at("ks").iu(i) % (N - kcap)); }
     for (int kind = F_NTH; kind <= F_FROM && !failed(); kind++)
